@@ -19,11 +19,12 @@ Fixpoint c26_steps (max : Z) (allow : bool) (l : pl) (steps : list (xop * out * 
   end.
 (* start: the list pex.New builds from the cache file = the model's `start` *)
 Definition mism_start := Eval vm_compute in
-  failing (fun c : Z * bool * bool * list fentry * list str * list str * Z * pl =>
-             let '(max, allow, disable, es, kept, defaults, now, d) := c in
-             match start max allow disable es kept defaults now with
-             | Some l => pl_eqb l d
-             | None => false
+  failing (fun c : Z * bool * bool * list fentry * list str * list str * option str * Z * option pl =>
+             let '(max, allow, disable, es, kept, defaults, custom, now, d) := c in
+             match start max allow disable es kept defaults custom now, d with
+             | Some l, Some d' => pl_eqb l d'
+             | None, None => true          (* pex.New refuses to start *)
+             | _, _ => false
              end) cases_start.
 Print mism_start.
 Definition mism_ops := Eval vm_compute in
